@@ -786,6 +786,11 @@ class C15:
                 k = res.split(":", 1)[1]
                 if f"uns:{k}" not in desc:
                     ctx.violate("TypeError names a kind that does not occur in the value", line + "   value: " + desc[:1500], "a kind present in the value", res)
+            if res.startswith("OK") and "uns:" in desc and "=" not in desc:
+                # every described position is reached by the encoder (unexported fields are described as `zero`, never filled; values with
+                # pickle-tagged struct fields are left to the model: untagged fields of such structs are skipped)
+                ctx.violate("Encode returned nil for a value that holds an unsupported kind (chan / func / complex / uintptr / unsafe.Pointer)",
+                            line + "   value: " + desc[:1500], "a TypeError", res[:300])
             if res.startswith("ERR other"):
                 ctx.violate("Encode returned an undocumented error for a generated value", line + "   value: " + desc[:1500], "nil, TypeError or a documented limitation", res)
         for i in range(0, len(lines), max(1, len(lines) // 8)):
